@@ -2,11 +2,17 @@
 
 1. kernel level: `degree_prune_internal` bit-exact against the Lean model (`prune`), and the bound
    predicate on the real output (rows longer / shorter / equal to the bound, with ties);
-2. end to end: for `diversify_prob = 1` on tie-free float data the Lean pipeline model
-   (`searchgraph edges`) predicts the edge set of `index._search_graph` from the real
-   `index._neighbor_graph` and the distance table of the index's own `_distance_func`; compared,
-   un-permuted through `index._vertex_order`, edge for edge (this also ties the four diversify
-   kernels in place, the "reverse" pass over the shared CSR arrays and the scipy glue);
+2. end to end: for `diversify_prob` in {1, 0.5, 0} the Lean pipeline model (`searchgraph edges`)
+   predicts the edge set of `index._search_graph` from the real `index._neighbor_graph` and the
+   distance table of the index's own `_distance_func`; compared, un-permuted through
+   `index._vertex_order`, edge for edge (this also ties the four diversify kernels in place, the
+   "reverse" pass over the shared CSR arrays and the scipy glue).  For 0.5 the outcomes of the
+   generator tests are reproduced: row `i` of `diversify` AND row `i` of `diversify_csr` evaluate
+   `tau_rand(local_rng_state) < diversify_prob` on the private array `local_rng_state = rng_state + i`
+   (a fresh allocation inside the `prange` body; `self.rng_state` is passed to both passes and is
+   never advanced by them), so the draws do not depend on the thread schedule and both passes
+   restart the SAME stream per row; the harness records `index.rng_state` before `prepare`, checks
+   that it is unchanged afterwards, and replays `tau_rand(rng_state + i)` with the real generator;
 3. API level: the predicate `search_graph(index)` of DESIGN Appendix G evaluated on real indexes
    across n_neighbors, pruning_degree_multiplier (incl. m = 1, 2), diversify_prob in {1, 0.5, 0},
    dense / CSR, tree_init, metrics euclidean / cosine / correlation (with duplicates and 2-D
@@ -20,6 +26,7 @@ import numpy as np, numba, scipy.sparse as sp
 warnings.filterwarnings("ignore")
 from pynndescent import NNDescent
 from pynndescent import pynndescent_ as pn
+from pynndescent.utils import tau_rand
 from harness.c15 import _table_dense, _table_sparse, f64bits_row
 
 EPS32 = np.float32(pn.FLOAT32_EPS)
@@ -155,11 +162,18 @@ def real_rows(idx):
     return rows
 
 
+def pub(cfg):
+    """the replayable part of a configuration (private entries such as the recorded generator state are reported separately)"""
+    return {k_: v for k_, v in cfg.items() if not k_.startswith("_")}
+
+
 def build(X, cfg):
     idx = NNDescent(X, metric=cfg["metric"], n_neighbors=cfg["k"], random_state=cfg["seed"], tree_init=cfg["tree_init"],
                     pruning_degree_multiplier=cfg["mult"], diversify_prob=cfg["dp"], low_memory=cfg.get("low_memory", True),
                     compressed=cfg.get("compressed", False))
     ng = (idx._neighbor_graph[0].copy(), idx._neighbor_graph[1].copy())
+    # the generator state both diversification passes receive (construction advanced it in place; _init_search_graph does not)
+    cfg["_rng_state"] = idx.rng_state.copy()
     if cfg.get("full_prepare", True):
         idx.prepare()
     else:
@@ -195,35 +209,68 @@ def rows_ascending(ng):
     return True
 
 
-def predict_lines(ng, T, m, stage="edges"):
+def draw_bits(rng_state, n, B, p):
+    """B outcomes of `tau_rand(rng_state + u) < p` per row u, row after row: the private stream that row u of diversify and
+    row u of diversify_csr both start from (`local_rng_state = rng_state + i`), produced by the real generator"""
+    out = []
+    for u in range(n):
+        s = rng_state + u
+        out.extend(1 if tau_rand(s) < p else 0 for _ in range(B))
+    return out
+
+
+def predict_lines(ng, T, m, stage="edges", dp=1.0, rng_state=None):
     I, D = ng
     n, k = I.shape
-    return "searchgraph %s %d %d %d %d | %s | %s | %d %s" % (stage, m, n, k, f32bits(EPS32), ints_row(I.ravel()), bits_row(D.ravel()), n, f64bits_row(T))
+    mode = {1.0: "", 0.0: " p0"}.get(dp, " d")
+    l = "searchgraph %s %d %d %d %d%s | %s | %s | %d %s" % (stage, m, n, k, f32bits(EPS32), mode, ints_row(I.ravel()), bits_row(D.ravel()), n, f64bits_row(T))
+    if mode == " d":
+        bits = ints_row(draw_bits(rng_state, n, k * k, dp))
+        l += " | " + bits + " | " + bits          # the same stream, restarted, in both passes
+    return l
 
 
 def check_e2e(res, X, cfg, idx, ng, T, m):
-    """With probability 1 the whole of _init_search_graph is a function of the neighbour graph and the distance table.
-    Rows with tied (protected) lengths are visited by the second pass in an unknown order; when the table is symmetric
-    bit for bit and the rows ascend, that pass is the identity for EVERY tie order (Props/C16, secondRow_keeps argument),
-    so the prediction stays exact; otherwise tied inputs are skipped."""
+    """Given the outcomes of the generator tests the whole of _init_search_graph is a function of the neighbour graph and the
+    distance table (probability 1: every test prunes; 0: none does; 0.5: replayed from the recorded generator state).
+    Rows with tied (protected) lengths are visited by the second pass in an unknown order.  With probability 1, a table that is
+    symmetric bit for bit and ascending rows, that pass is the identity for EVERY tie order (Props/C16, secondRow_keeps
+    argument); with probability 0 both passes are the identity whatever the order; so the prediction stays exact.  Otherwise
+    (asymmetric table, or probability 0.5, where Props/C16 searchGraph_nearest_needs_htie shows the tie order matters) tied
+    inputs are skipped.  Returns True if the edge sets were compared."""
+    dp = cfg["dp"]
     tied = forward_ties(ng)
     sym = np.array_equal(T.view(np.uint64), T.T.view(np.uint64))
-    if tied and not (sym and rows_ascending(ng)):
-        res.count("e2e_tied_skipped")
-        return
-    res.count("e2e_compared_tied" if tied else "e2e_compared_tiefree")
-    model = run_driver([predict_lines(ng, T, m)])[0]
+    if tied and dp != 0.0 and not (dp == 1.0 and sym and rows_ascending(ng)):
+        res.count("e2e_tied_skipped"); res.count("e2e_tied_skipped_dp=%g" % dp)
+        return False
+    rs = cfg["_rng_state"]
+    if not np.array_equal(rs, idx.rng_state):
+        # never observed: _init_search_graph hands self.rng_state to make_forest (which ignores it) and to the two passes
+        # (which copy it per row); if it moved, the recorded state is not the one the passes saw
+        res.count("e2e_rng_state_moved")
+        res.notes.append("rng_state changed during prepare: %r" % pub(cfg))
+        if dp not in (0.0, 1.0):
+            return False
+    res.count("e2e_compared_tied" if tied else "e2e_compared_tiefree"); res.count("e2e_compared_dp=%g" % dp)
+    model = run_driver([predict_lines(ng, T, m, dp=dp, rng_state=rs)])[0]
     pred = [sorted(int(t) for t in r.split()) for r in model.split("|")]
     real = real_rows(idx)
     n = len(real)
     nontrivial = any(len(r) > m for r in pred) or sum(len(r) for r in real) < int(np.sum(ng[0] >= 0))
-    res.case(("e2e", cfg["metric"], cfg["k"], cfg["mult"], cfg["tree_init"], cfg["sparse"], n, cfg["seed"], cfg["dseed"]), nontrivial,
-             sample={**cfg, "n": n, "edges": sum(len(r) for r in real)})
+    res.case(("e2e", cfg["metric"], cfg["k"], cfg["mult"], dp, cfg["tree_init"], cfg["sparse"], n, cfg["seed"], cfg["dseed"]), nontrivial,
+             sample={**pub(cfg), "n": n, "edges": sum(len(r) for r in real)})
     res.count("e2e_edges", sum(len(r) for r in real))
+    if dp not in (0.0, 1.0):
+        # how much the draws mattered: edges of this index that probability 1 would not have / that it alone would have
+        p1 = [set(int(t) for t in r.split()) for r in run_driver([predict_lines(ng, T, m)])[0].split("|")]
+        res.count("e2e_dp.5_edges_not_in_p1", sum(len(set(real[u]) - p1[u]) for u in range(min(n, len(p1)))))
+        res.count("e2e_dp.5_edges_only_in_p1", sum(len(p1[u] - set(real[u])) for u in range(min(n, len(p1)))))
     if len(pred) != n or any(pred[u] != real[u] for u in range(n)):
         bad = [u for u in range(min(n, len(pred))) if pred[u] != real[u]][:5]
-        res.corr_fail("searchgraph_edge_set", {**cfg, "n": n, "m": m, "rows": bad},
+        res.corr_fail("searchgraph_edge_set", {**pub(cfg), "rng_state": rs.tolist(), "n": n, "m": m, "rows": bad},
                       {u: pred[u] for u in bad}, {u: real[u] for u in bad})
+    return True
 
 
 # ----------------------------------------------------------------------------------------------
@@ -234,7 +281,7 @@ def api_predicate(res, cfg, idx, ng, T, m):
     I, D = ng
     n, k = I.shape
     G = idx._search_graph
-    case = dict(cfg)
+    case = pub(cfg)
 
     def viol(kind, what, extra=None):
         res.violation("searchgraph:" + kind, what, {**case, **(extra or {}), "site": key})
@@ -310,13 +357,19 @@ PLANS = [
 ]
 
 
-def run_plan(res, rng, plan, count, tier):
+def run_plan(res, rng0, plan, count, tier, extra=0, rng_extra=None):
+    """`count` rotating cases drawn from `rng0`, then `extra` cases with diversify_prob = 0.5 on tie-free gaussian data (drawn from
+    `rng_extra`, so that they do not shift the others): the cases in which the replayed draws decide edges"""
     metric, sparse, streams = plan
-    for c in range(count):
-        stream = streams[c % len(streams)]
-        e2e = (c % 8 < 5)                         # diversify_prob = 1: the edge set is predicted exactly
+    for c in range(count + extra):
+        forced = c >= count
+        rng = rng_extra if forced else rng0
+        stream = "gauss" if forced else streams[c % len(streams)]
+        e2e = (c % 8 < 5) and not forced                         # diversify_prob = 1 (the other three of eight: 0.5 or 0); the edge set is predicted for all
         n = int(rng.choice([6, 12, 40, 90, 120, 200] if stream == "gauss" else [3, 6, 12, 40, 40, 90, 120]))
         k = int(rng.choice([2, 4, 8, 15]))
+        if forced:
+            n = int(rng.choice([40, 90, 120, 200])); k = int(rng.choice([4, 8, 15]))
         dim = int(rng.choice([4, 7] if (sparse or stream == "parallel" or metric == "correlation") else [2, 4, 7]))
         if stream == "parallel":
             n = int(rng.choice([40, 90, 120])); k = int(rng.choice([2, 4]))
@@ -333,26 +386,27 @@ def run_plan(res, rng, plan, count, tier):
         if m < 1:
             mult, m = 1.0 / k, 1
         dp = 1.0 if e2e else float(rng.choice([0.5, 0.5, 0.0]))
+        if forced:
+            dp = 0.5
         cfg = {"metric": metric, "sparse": sparse, "stream": stream, "n": n, "k": k, "dim": dim, "mult": mult, "dp": dp,
                "tree_init": bool(rng.integers(2)), "seed": int(rng.integers(1000)), "dseed": int(rng.integers(1 << 30)),
-               "low_memory": bool(rng.integers(2)), "full_prepare": (c % 4 == 0), "compressed": (c % 3 == 1)}
+               "low_memory": bool(rng.integers(2)), "full_prepare": (c % 4 == 0 and not forced), "compressed": (c % 3 == 1)}
         X = gen_data(np.random.default_rng(cfg["dseed"]), n, dim, stream_, sparse)
         res.count("m=%d" % m if m <= 2 else "m>2"); res.count("dp=%g" % dp); res.count("stream_" + stream)
         res.count("tree_init=%s" % cfg["tree_init"]); res.count("plan_%s_%s" % ("csr" if sparse else "dense", metric))
         try:
             idx, ng = build(X, cfg)
         except Exception as e:  # noqa
-            res.violation("searchgraph:exception", "%s: %s" % (type(e).__name__, str(e)[:200]), cfg)
+            res.violation("searchgraph:exception", "%s: %s" % (type(e).__name__, str(e)[:200]), pub(cfg))
             continue
         T = dist_table(idx, X)
         if int(np.round(idx.prune_degree_multiplier * idx.n_neighbors)) != m:
-            res.notes.append("m mismatch %r" % cfg)
+            res.notes.append("m mismatch %r" % pub(cfg))
         real = ng[0] >= 0
         res.count("lens_negative", int((ng[1][real] < 0).sum())); res.count("lens_zero", int((ng[1][real] == 0).sum()))
         res.count("padding_entries", int((~real).sum()))
-        if e2e:
-            check_e2e(res, X, cfg, idx, ng, T, m)
-        else:
+        compared = check_e2e(res, X, cfg, idx, ng, T, m)
+        if not e2e and not compared:
             res.case(("api", metric, sparse, stream, n, k, mult, dp, cfg["tree_init"], cfg["seed"], cfg["dseed"]), n > k)
         api_predicate(res, cfg, idx, ng, T, m)
         res.traces += 1
@@ -362,8 +416,11 @@ def run(res, tier, seed, search):
     prng = random.Random(seed * 7919 + 16)
     rng = np.random.default_rng(seed + 1616)
     res.rule = ("(1) degree_prune_internal rows (longer/equal/shorter than m in 0..8, tie-heavy / real / mixed-sign), non-trivial = row longer than "
-                "the bound with m >= 1; (2) end-to-end edge-set prediction for diversify_prob=1 on gaussian data (n in 6..200, k in 2..15, "
-                "m = round(mult*k) incl. 1 and 2, dense/CSR, tree_init, low_memory), non-trivial = some row longer than the bound or some edge "
+                "the bound with m >= 1; (2) end-to-end edge-set prediction for diversify_prob in {1, .5, 0} (five, two, one of eight indexes; for .5 "
+                "the draws tau_rand(rng_state + row) < .5 of both passes are replayed from index.rng_state; tied rows skipped unless "
+                "probability 0, or probability 1 with a symmetric table; on every data stream (n in 3..200, k in 2..15) plus, per plan, 3 (quick) / 8 "
+                "indexes with probability .5 on tie-free gaussian data, n in 40..200, k in 4..15, where the replayed draws decide edges "
+                "(m = round(mult*k) incl. 1 and 2, dense/CSR, tree_init, low_memory), non-trivial = some row longer than the bound or some edge "
                 "removed by diversification; (3) API predicate on the same and on smallint / duplicate / 2-D-correlation data with "
                 "diversify_prob in {1, .5, 0}, non-trivial = n > k; distinct = hash of the configuration; quick tier: dense euclidean plus two of "
                 "the four other (metric, dense/CSR) plans, rotating with the seed (each plan costs 10-20 s of numba compilation)")
@@ -375,8 +432,9 @@ def run(res, tier, seed, search):
     else:
         plans = PLANS
         per = [40 if search else 24] * len(PLANS)
+    rng_extra = np.random.default_rng(seed + 161616)
     for plan, cnt in zip(plans, per):
-        run_plan(res, rng, plan, cnt, tier)
+        run_plan(res, rng, plan, cnt, tier, extra=(3 if tier == "quick" and not search else 8), rng_extra=rng_extra)
 
 
 if __name__ == "__main__":
